@@ -30,6 +30,26 @@ CLAIMED = {
    note="Trusted: rustc/std, proptest, boxed.rs as the reference implementation. The flat queue is exercised through the same generic entry points Stakker uses (push with monomorphised closures, push_box, execute, Drop). AddressSanitizer coverage comes from the fuzz leg when built (thorough)."),
 }
 
+
+VM_NOTE = ("Assumes the specification-level monitor (abstract FIFOs, Prep/Ready/Zombie, owner counts, pending termination effects; Appendix A of DESIGN.md) reads the "
+    "property correctly; it is validated in both directions by the mutant self-test. Generated programs stay inside the documented caller contract (no owner cycles, no re-entrant run, "
+    "<= 96 drop-handler generations). Known finding F2 is excluded by construction and counted. Trusted: rustc/std, proptest. Absence of a counter-example in N programs, not a proof.")
+VM_TECH = "model-based property testing: proptest byte strings -> program VM on the real Stakker, lock-step reference monitor as oracle, shrunk failures become replay files"
+def vm(ref, text):
+    return dict(engine="E1 program VM + monitor", ref=ref, technique=VM_TECH, text=text, note=VM_NOTE)
+CLAIMED.update({
+ "C01": vm("5/C01", "Programs (trees of closures submitting closures through Core::defer, Deferrer::defer, Actor::defer, call!, from running items of every queue, from actor methods and from Drop handlers without Core access; 183 capture shapes 0..4096 B x align 1..128; bursts that grow and chain the queue buffer; runs crossing the 60 s recreation; orderly or abrupt shutdown with up to 96 drop generations) run on the real Stakker; the monitor requires every main-queue entry to be processed in exactly submission order, exactly once, run() to return only at quiescence, captured bytes intact, and after drop(stakker) nothing runs and every pending closure is dropped once."),
+ "C02": vm("5/C02", "Programs with actors whose initialisation is immediate, multi-step, failing or never completing, with Ready- and Prep-style calls from outside, other actors, timers, Fwd and Ret in flight across Prep->Ready and across stop/fail/kill/owner-drop at generated queue positions; the monitor requires per-actor call order, holding while Prep, flushing of held calls in order right at Ready before anything else, discarding exactly when the target is a Zombie (is_zombie() true inside the drop) or terminates while holding, Ready methods only while Ready, Prep-style only while Prep."),
+ "C03": vm("5/C03", "Programs that stack stop/fail (str, fmt, custom error)/kill! (3 forms)/direct kill/last-owner-drop on actors in every state; is_zombie() is sampled at every item start and after every run and must equal the model; each effective termination must show value drop (never inside one of its methods), discarding of held calls, then exactly one notification whose cause and payload identity equal the first request to take effect."),
+ "C04": vm("5/C04", "Programs building ownership DAGs with owned(), anon(), ActorOwnSlab children, owners held in locals, global registers, queued closures, messages and actor state, with bulk clone/drop of non-owning references; the harness counts owning handles itself; termination as Dropped must take the last drop's place in the queue, never happen while an owner exists, whole trees must be Zombie when run() returns, and every live slab parent is queried after every run for len == live children."),
+ "C05": vm("5/C05", "Programs moving Ret::new / ret_some_do! / ret_to! / ret_some_to! / prep-style Rets through closures, messages, timers, actor state and global registers, then answering or abandoning them (discarded calls, held calls of terminating Prep actors, deleted timers, Stakker dropped with the Ret in any queue); each handler must be invoked exactly once, Some iff ret() was called, None inside the very drop of the Ret; ret_to! targets get at most one call with the matching argument."),
+ "C06": vm("5/C06", "Programs where defer/lazy/idle/timer items submit each other, driven by arbitrary run(now, idle) sequences; at run() return main and lazy queues must be empty, lazy items run in submission order and never while an older main-queue entry is pending, at most one idle item per run, only with idle=true, first, oldest first, and the returned bool equals 'idle items remain'."),
+ "C15": dict(engine="E1 program VM + monitor; E2 timer histories", ref="5/C15", technique=VM_TECH + "; plus timer-history leg for the 'timers only when time advances' clause",
+    text="Run instants that increase, repeat, go backwards and jump by minutes are interleaved with items of every kind that read Core::now(); every main/lazy/timer/actor item must see exactly max(instants so far), the single idle item the previous or the new value, Stakker::now() after each call equals the model, start_instant() never changes, and (timer leg) no timer callback runs in a run whose instant does not exceed the current time.",
+    note=VM_NOTE),
+ "C16": vm("5/C16", "C01-C06 style programs plus clone/drop storms on Actor, ActorOwn, Fwd, Deferrer and moves of Ret; every item capture, message and handle must be released exactly once by the end of the case (registries), capture bytes verified on use, and a counting global allocator requires live heap allocations after the case (Stakker, references and harness bookkeeping dropped) to equal those before it, confirmed by re-execution. Memory-unsafety that kills the process is replayed in a fresh process and reported if it reproduces."),
+})
+
 NOT_YET = "check not built yet in this session (planned, see DESIGN.md section 5); not claimed until it exists and passes its sensitivity self-test"
 
 def main():
@@ -65,6 +85,7 @@ def main():
             "add_only": True,
         },
         "engines": [
+            {"name": "E1 program VM + monitor", "path": "/verif/harness/vcore/src/vm", "serves_properties": ["C01","C02","C03","C04","C05","C06","C15","C16"], "kind_free_text": "proptest byte strings -> program VM driving the real Stakker; lock-step specification-level monitor; counting allocator"},
             {"name": "E3 queue differential", "path": "/verif/harness/vcore/src/queues.rs", "serves_properties": ["C17"], "kind_free_text": "flat.rs vs boxed.rs side by side: enumerated boundary sweep + proptest op sequences, event-log equality"},
             {"name": "E2 timer histories", "path": "/verif/harness/vcore/src/timers.rs", "serves_properties": ["C07", "C08", "C09", "C10", "C19"], "kind_free_text": "proptest byte strings -> timer histories -> real Stakker in virtual time vs deadline model"},
         ],
